@@ -250,6 +250,52 @@ PROPS["C11"] = dict(
     design="DESIGN.md §4 C11",
 )
 
+PROPS["C01"] = dict(
+    technique="static analysis: alignment taint (array operands from different parameters must pass unify_chunks/broadcast before a shared-coordinate sink), key-name and block-id plumbing agreement, proxy name chain",
+    text=(
+        "Narrow claim. Decides three structural clauses that are necessary for value equality with NumPy: "
+        "(1) in every function reachable from the public namespaces, arrays deriving from two different "
+        "array parameters (or from a sequence-of-arrays parameter) reach a shared-block-coordinate sink only "
+        "after unify_chunks / broadcast_arrays, and the aligning blockwise really unifies; (2) every array a "
+        "key function names in a ChunkKey is an operand of the operation that registers it; (3) block ids "
+        "travel through the offsets array appended last, read and stripped last, and decoded with the same "
+        "grid. The one violation of (1), stack(), was reproduced (wrong values) and repaired (F1)."
+    ),
+    note=(
+        "Does NOT decide the arithmetic of block mappings (off-by-one, rounding, tree-reduction rounds, "
+        "combine functions, dtype casts): numerical correctness over shapes x chunkings x dtypes is not a "
+        "shape-of-code fact (DESIGN.md §4 C01). groupby_reduction (not in the public namespaces) is noted, not judged."
+    ),
+    design="DESIGN.md §4 C01",
+)
+PROPS["C15"] = dict(
+    technique="static analysis: sibling agreement of the three structure-preserving dispatchers, output-name and key-name provenance, ordered dispatch of every argument, proxy name chain, block-id plumbing",
+    text=(
+        "Decides the structure part of blockwise addressing: the dispatchers map a list to a list and an "
+        "iterator to a lazy iterator, rebuild FunctionArgs under the input element's own name, pass through "
+        "names that have no predecessor function in both the key and the function dispatcher (indexed by the "
+        "same array name), are applied to every positional argument in order, keep generator-ness of the "
+        "outer function; predecessor key/function dictionaries are filled together from writes_map keys; "
+        "input names, storage objects and read proxies are zipped strictly in operand order; key functions "
+        "name only operands of their operation."
+    ),
+    note="Does NOT decide the index algebra itself (_get_coord_mapping, lol_product, flattening): combinatorial arithmetic, not a shape-of-code fact.",
+    design="DESIGN.md §4 C15",
+)
+PROPS["C17"] = dict(
+    technique="static analysis: classification of every assert / raise AssertionError by the origin of its condition, alignment taint and key-name agreement (failures that would otherwise surface inside tasks)",
+    text=(
+        "Partial. Decides that no `assert` whose condition reads operand geometry (shape/chunks/numblocks/"
+        "ndim/len of an operand sequence) and no `raise AssertionError` is reachable in library code outside "
+        "narrowing/internal-invariant uses — the property demands ValueError/TypeError/NotImplementedError/"
+        "IndexError there — and that the two structural causes of mid-run failures visible in the code "
+        "(unaligned operands at a shared-coordinate sink, key functions naming a non-operand) are absent. "
+        "scan()'s geometry assert is reproduced known finding F7."
+    ),
+    note="Does NOT decide completeness of each function's argument validation against NumPy's domain (no code-shape oracle for what should have been validated).",
+    design="DESIGN.md §4 C17",
+)
+
 CLAIMED = sorted(PROPS)
 
 NOT_APPLICABLE = {
